@@ -147,6 +147,13 @@ class Conv:
             raise OutOfDomain("wildcard named root")
         return {n: i for i, n in enumerate(ns)}
 
+    def root_is_node(self, t) -> bool:
+        if isinstance(t, list):
+            return False
+        if isinstance(t, tuple):
+            return all(self.root_is_node(c) for c in t)
+        return True
+
     def tmpl(self, t, ignore, ids, sort_fields=False) -> str:
         core = self.core
         rec = lambda c: self.tmpl(c, ignore, ids, sort_fields)  # noqa
@@ -176,6 +183,10 @@ class Conv:
         if isinstance(t, core.Wildcard):
             if t.name == "Ellipsis_anything" and t.template is object:
                 return "TEll"
+            if not self.root_is_node(t.template):
+                # the match of a list template carries the template permutation in its root slot
+                # (core.py:250) and a wildcard would bind THAT; the model does not represent it
+                raise OutOfDomain("wildcard over a list template")
             return f"(TWild {ids[t.name]} {gbool(bool(t.common))} {rec(t.template)})"
         if isinstance(t, (core.ZeroOrOne, core.ZeroOrMany, core.OneOrMany)):
             return f'(TNode "{type(t).__name__}" [])'      # never matches a source node
@@ -396,3 +407,175 @@ def decl_findall(core, template, root, ignore=()) -> list:
                         out.append(tuple(body[i:i + k]))
         return out
     return [n for n in ast.walk(root) if decl_matches(core, template, n, ignore)]
+
+
+# ---------------------------------------------------------------------------------------------
+# Python twin of MatchModel.match_tmpl (a transliteration of the Gallina model, NOT of core.py): used
+# only to decide whether a wrong search answer is an instance of a *listed* finding -- the model has
+# exactly the listed defects, so an answer the twin does not reproduce is a new defect.
+
+_NOROOT = object()
+
+
+def _key(core, x):
+    return core.unparse(x) if isinstance(x, ast.AST) else str(x)
+
+
+def _twin_merge(core, root, rs):
+    acc = {}
+    for r in rs:
+        if r is None:
+            return None
+    for r in rs:
+        for n, x in r[1].items():
+            if n in acc and _key(core, acc[n]) != _key(core, x):
+                return None
+            acc[n] = x
+    return (root, acc)
+
+
+def _twin_cvecs(core, items, n):
+    def lohi(it, slack):
+        if isinstance(it, core.ZeroOrOne):
+            return 0, 1
+        if isinstance(it, core.ZeroOrMany):
+            return 0, slack
+        if isinstance(it, core.OneOrMany):
+            return 1, 1 + slack
+        return 1, 1
+    mins = sum(lohi(it, 0)[0] for it in items)
+    if n < mins:
+        return
+    slack = n - mins
+
+    def go(i, left):
+        if i == len(items):
+            if left == 0:
+                yield []
+            return
+        lo, hi = lohi(items[i], slack)
+        for c in range(lo, hi + 1):
+            if c <= left:
+                for rest in go(i + 1, left - c):
+                    yield [c] + rest
+    yield from go(0, n)
+
+
+def twin_match(core, t, v, ignore):
+    if isinstance(t, type):
+        return (v, {}) if isinstance(v, t) else None
+    if isinstance(t, tuple):
+        for c in t:
+            r = twin_match(core, c, v, ignore)
+            if r is not None:
+                return r
+        return None
+    if isinstance(t, (set, frozenset)):
+        if not isinstance(v, list):
+            return None
+        return _twin_merge(core, v, [twin_match(core, tuple(t), a, ignore) for a in v])
+    if isinstance(t, list):
+        if not isinstance(v, list):
+            return None
+        for cs in _twin_cvecs(core, t, len(v)):
+            exp = []
+            for it, c in zip(t, cs):
+                tt = it.template if isinstance(it, (core.ZeroOrOne, core.ZeroOrMany, core.OneOrMany)) else it
+                exp += [tt] * c
+            r = _twin_merge(core, v, [twin_match(core, tt, a, ignore) for tt, a in zip(exp, v)])
+            if r is not None:
+                return r
+        return None
+    if t is True or t is False or t is None:
+        return (v, {}) if v is t else None
+    if isinstance(t, core.Wildcard):
+        if t.name == "Ellipsis_anything" and t.template is object:
+            return (v, {})
+        r = twin_match(core, t.template, v, ignore)
+        if r is None:
+            return None
+        n = (0 if r[0] is _NOROOT else 1) + len(r[1])
+        if n != 1:
+            return None
+        first = r[0] if r[0] is not _NOROOT else next(iter(r[1].values()))
+        return (_NOROOT, {t.name: first})
+    if isinstance(t, ast.AST):
+        if not isinstance(v, ast.AST) or type(v) is not type(t):
+            return None
+        keys = [k for k in vars(t) if k not in ignore]
+        if any(k not in vars(v) for k in keys):
+            return None
+        return _twin_merge(core, v, [twin_match(core, vars(t)[k], vars(v)[k], ignore) for k in keys])
+    if isinstance(v, (ast.AST, list)):
+        return None
+    return (v, {}) if v == t else None
+
+
+def twin_findall(core, template, root):
+    """the model's search: walk_wildcard (ignore=()) / walk_sequence windows (DEFAULT_IGNORE)"""
+    if isinstance(template, list):
+        out = []
+        kinds = (ast.Module, ast.FunctionDef, ast.AsyncFunctionDef, ast.ClassDef, ast.If, ast.For, ast.While,
+                 ast.With)
+        k = len(template)
+        for node in ast.walk(root):
+            if type(node) not in kinds:
+                continue
+            for body in (getattr(node, "body", []), getattr(node, "orelse", [])):
+                for i in range(0, len(body) - k + 1):
+                    rs = [twin_match(core, t, n, core.DEFAULT_IGNORE) for t, n in zip(template, body[i:i + k])]
+                    if _twin_merge(core, root, rs) is not None:
+                        out.append(tuple(body[i:i + k]))
+        return out
+    if isinstance(template, type):
+        cand = [n for n in ast.walk(root) if isinstance(n, template)]
+    elif isinstance(template, ast.AST) and not isinstance(template, core.Wildcard):
+        cand = [n for n in ast.walk(root) if type(n) is type(template)]
+    else:
+        cand = []
+    return [n for n in cand if twin_match(core, template, n, ()) is not None]
+
+
+# structural predicates on compiled patterns (signatures of the known findings)
+
+def _walk_tmpl(core, t, fn, inside=()):
+    fn(t, inside)
+    if isinstance(t, core.Wildcard):
+        _walk_tmpl(core, t.template, fn, inside)
+    elif isinstance(t, (core.ZeroOrOne, core.ZeroOrMany, core.OneOrMany)):
+        _walk_tmpl(core, t.template, fn, inside)
+    elif isinstance(t, type):
+        pass
+    elif isinstance(t, list):
+        for c in t:
+            _walk_tmpl(core, c, fn, inside + (id(t),))
+    elif isinstance(t, (tuple, set, frozenset)):
+        for c in t:
+            _walk_tmpl(core, c, fn, inside)
+    elif isinstance(t, ast.AST):
+        for c in vars(t).values():
+            _walk_tmpl(core, c, fn, inside)
+
+
+def has_noncommon_named(core, tmpl) -> bool:
+    hit = []
+    _walk_tmpl(core, tmpl, lambda t, _: hit.append(1) if isinstance(t, core.Wildcard) and not t.common
+               and not t.name.endswith("_anything") else None)
+    return bool(hit)
+
+
+def name_in_and_out_of_quantified_list(core, tmpl) -> bool:
+    """a common name occurs inside a list that has a ? * + item and also outside that list"""
+    qlists, occ = set(), []
+
+    def fn(t, inside):
+        if isinstance(t, list) and any(isinstance(c, (core.ZeroOrOne, core.ZeroOrMany, core.OneOrMany)) for c in t):
+            qlists.add(id(t))
+        if isinstance(t, core.Wildcard) and t.common:
+            occ.append((t.name, inside))
+    _walk_tmpl(core, tmpl, fn)
+    for name, inside in occ:
+        for L in inside:
+            if L in qlists and any(n == name and L not in ins for n, ins in occ):
+                return True
+    return False
